@@ -1,5 +1,8 @@
 use amverif::*;
 
+#[global_allocator]
+static ALLOC: amverif::shared::ledger::Ledger = amverif::shared::ledger::Ledger;
+
 fn main() {
     let args: Vec<String> = std::env::args().collect();
     let cmd = args.get(1).map(|s| s.as_str()).unwrap_or("");
@@ -18,6 +21,11 @@ fn main() {
         "c07-stress" => stress::c07(&rest),
         "src-replay" => sources::main(&rest),
         "embed-check" => sources::embed_check(&rest),
+        "shared-replay" => shared::replay(&rest),
+        "utf8-replay" => shared::utf8(&rest),
+        "once-replay" => once::main(&rest),
+        "watch-replay" => watch::replay(&rest),
+        "watch-real" => watch::real(&rest),
         "c08-stress" => stress::c08(&rest),
         "cache-replay" => replay::main(&rest),
         "rid-replay" => c18::replay(&rest),
